@@ -12,4 +12,4 @@ def bus(case, res):
         b.run(prm.get("n_ops", 60))
         b.finale(shutdown=prm.get("shutdown", True))
         return S.ops[:40]
-    sim_case(case, res, body)
+    sim_case(case, res, body, session_kw=dict(args=("-f", "-l")) if prm.get("local_only") else None)
